@@ -11,32 +11,7 @@ INDEX_MUT = "core::slice::index::<impl core::ops::IndexMut<I> for [T]>::index_mu
 ERR = "rtcm_error::RtcmError"
 
 
-def strip_ref(t):
-    """&*x, *&x ... -> x (object or value level)."""
-    while isinstance(t, T) and t.op in ("ref", "mem", "memval"):
-        t = t.args[0]
-    return t
-
-
-def as_slice(t):
-    """Term of a sub-slice expression -> (base object term, lo, hi, kind) ; lo/hi are terms or None."""
-    x = strip_ref(t)
-    if x.op == "call" and x.args[0] in (INDEX, INDEX_MUT, "core::array::<impl core::ops::Index<I> for [T; N]>::index",
-                                         "core::array::<impl core::ops::IndexMut<I> for [T; N]>::index_mut") and len(x.args[1]) == 2:
-        base = strip_ref(x.args[1][0])
-        r = x.args[1][1]
-        if r.op == "agg":
-            name = r.args[0].rsplit("::", 1)[1]
-            ops = r.args[3]
-            if name == "Range":
-                return (base, ops[0], ops[1], "Range")
-            if name == "RangeTo":
-                return (base, None, ops[0], "RangeTo")
-            if name == "RangeFrom":
-                return (base, ops[0], None, "RangeFrom")
-            if name == "RangeFull":
-                return (base, None, None, "RangeFull")
-    return None
+from framing_slices import strip_ref, as_slice
 
 
 def neg_canon(c):
